@@ -75,6 +75,15 @@ def run(ch: Checker) -> None:
         calls = [norm(c.func) for c in walk_no_nested(fn.node) if isinstance(c, ast.Call) and (attr_chain(c.func) or '').startswith('self.queue.')]
         if calls != ['self.queue.put']:
             bad_q.append('%s: %s' % (name, calls))
+        # ... and that one put() happens on EVERY normal way through the producer (no early return that swallows a request)
+        gq = cfg_of(fn, prog, exc_edges=False)
+        for p in fpaths(gq):
+            if p.exit_kind != 'return' or p.coarse:
+                continue
+            puts = sum(1 for i, st in p.stmts() for c in walk_no_nested(st) if isinstance(c, ast.Call) and attr_chain(c.func) == 'self.queue.put')
+            if puts != 1:
+                bad_q.append('%s: a path through it performs %d put() calls (%s)' % (name, puts, ' / '.join('%s=%s' % kv for kv in allfacts(p).items())[:80]))
+                break
     ch.check(not bad_q, 'C18.1', eq.methods['publish'], 'producers only put', 'publish/subscribe/unsubscribe put exactly one event each', 'producer side is not a single put: %s' % bad_q)
 
     # ---------------- C18.2
